@@ -94,6 +94,7 @@ EMPTY = {"np": 0, "no": 0, "p": [], "o": []}
 nrestart_checked = [0]
 nrestart_contig = [0]
 nrestart_gap = [0]
+nrestart_trimming = [0]
 nfailed_delete_wf = [0]
 nfailed_delete_notwf = [0]
 witness_seen = {}
@@ -301,6 +302,8 @@ def predicate(case):
                 pend, opened, outs, contig = expected_after_restart(prev, rc)
                 if contig:
                     nrestart_contig[0] += 1
+                    if len(opened) < len(restart_sets(prev, rc)[1]):
+                        nrestart_trimming[0] += 1
                 else:
                     nrestart_gap[0] += 1
                 gotp = {kt(e[0]): e[1] for e in snap["p"]}
@@ -537,6 +540,7 @@ def run(ctx):
         "correspondence_mismatches": nbad, "predicate_failures": nfail,
         "restarts_checked_against_set_level_spec": nrestart_checked[0],
         "restarts_where_contiguity_hypothesis_holds": nrestart_contig[0],
+        "restarts_where_contiguity_holds_and_keystones_are_rolled_back": nrestart_trimming[0],
         "restarts_with_a_gap_checked_against_scan_rule": nrestart_gap[0],
         "failed_deletes_with_wf_out_hypothesis": nfailed_delete_wf[0],
         "failed_deletes_without_wf_out": nfailed_delete_notwf[0],
